@@ -403,6 +403,8 @@ ocp.set_der(v, a)
     def add_constraints(self, stage, opti):
         self.add_constraints_before(stage, opti)
         assert "integrator" not in stage._constraints
+        if stage._constraints["integrator_roots"]:
+            raise Exception("Constraints with grid='integrator_roots' cannot be placed by SplineMethod; use DirectCollocation.")
 
         self.opti_advanced = self.opti.advanced
         self.add_constraints_inf(stage, opti)
